@@ -2,11 +2,12 @@ package rules
 
 import (
 	"fmt"
-	"os"
 	"go/token"
 	"go/types"
+	"os"
 	"reflect"
 	"sort"
+	"strconv"
 	"strings"
 
 	"golang.org/x/tools/go/ssa"
@@ -68,6 +69,7 @@ type purity struct {
 	fns          []*ssa.Function
 	srcFields    map[*types.Var]string
 	taintedRet   map[*ssa.Function]string
+	retParams    map[*ssa.Function]map[int]bool // parameters whose taint (alone) reaches the function's results
 	taintedParam map[*ssa.Parameter]string
 	taintedCell  map[ssa.Value]string
 	directW      map[*ssa.Function]string
@@ -134,7 +136,7 @@ func isNamedCall(call *ssa.Call, name string) bool {
 }
 
 func c05pure(c *core.Ctx, r *core.Report) {
-	p := &purity{c: c, g: c.RepoGraph(), srcFields: map[*types.Var]string{}, taintedRet: map[*ssa.Function]string{}, taintedParam: map[*ssa.Parameter]string{},
+	p := &purity{c: c, g: c.RepoGraph(), srcFields: map[*types.Var]string{}, taintedRet: map[*ssa.Function]string{}, retParams: map[*ssa.Function]map[int]bool{}, taintedParam: map[*ssa.Parameter]string{},
 		taintedCell: map[ssa.Value]string{}, directW: map[*ssa.Function]string{}, summary: map[*ssa.Function]string{}}
 	// ---- sources
 	cfgPkg := c.Pkg("analysis/config")
@@ -222,9 +224,12 @@ func c05pure(c *core.Ctx, r *core.Report) {
 				tainted[fn] = tv
 			}
 			before := len(tv)
-			for _, prm := range fn.Params {
+			for i, prm := range fn.Params {
 				if d, ok := p.taintedParam[prm]; ok && tv[prm] == "" {
-					tv[prm] = d
+					// taint that comes in through a parameter is tagged with the parameter's index: whether it
+					// reaches the caller again through the result is decided per call site (only call sites
+					// that pass a tainted argument get a tainted result)
+					tv[prm] = paramTag(i) + untag(d)
 				}
 			}
 			for _, fv := range fn.FreeVars {
@@ -256,40 +261,40 @@ func c05pure(c *core.Ctx, r *core.Report) {
 							}
 						}
 						// implicit flow: phi whose incoming values differ between the edges controlled by one tainted branch
-					if phi, ok := ins.(*ssa.Phi); ok && tv[phi] == "" {
-						for _, br := range branchRegions {
-							// values arriving only through the true side vs only through the false side of the branch
-							var tVals, fVals []ssa.Value
-							for i, pred := range b.Preds {
-								inT := br.side[0][pred] || (pred == br.branch && br.branch.Succs[0] == b)
-								inF := br.side[1][pred] || (pred == br.branch && len(br.branch.Succs) > 1 && br.branch.Succs[1] == b)
-								if inT && !inF {
-									tVals = append(tVals, phi.Edges[i])
-								} else if inF && !inT {
-									fVals = append(fVals, phi.Edges[i])
-								}
-							}
-							differ := false
-							for _, a := range tVals {
-								for _, bb := range fVals {
-									if !sameExpr(a, bb, 0) {
-										differ = true
+						if phi, ok := ins.(*ssa.Phi); ok && tv[phi] == "" {
+							for _, br := range branchRegions {
+								// values arriving only through the true side vs only through the false side of the branch
+								var tVals, fVals []ssa.Value
+								for i, pred := range b.Preds {
+									inT := br.side[0][pred] || (pred == br.branch && br.branch.Succs[0] == b)
+									inF := br.side[1][pred] || (pred == br.branch && len(br.branch.Succs) > 1 && br.branch.Succs[1] == b)
+									if inT && !inF {
+										tVals = append(tVals, phi.Edges[i])
+									} else if inF && !inT {
+										fVals = append(fVals, phi.Edges[i])
 									}
 								}
-							}
-							if differ {
-								tv[phi] = br.why + " (control dependence)"
-								inner = true
-								break
+								differ := false
+								for _, a := range tVals {
+									for _, bb := range fVals {
+										if !sameExpr(a, bb, 0) {
+											differ = true
+										}
+									}
+								}
+								if differ {
+									tv[phi] = br.why + " (control dependence)"
+									inner = true
+									break
+								}
 							}
 						}
-					}
-					// stores of tainted values
+						// stores of tainted values
 						if st, ok := ins.(*ssa.Store); ok && tv[st.Val] != "" {
 							switch a := st.Addr.(type) {
 							case *ssa.Alloc:
 								if p.taintedCell[a] == "" {
-									p.taintedCell[a] = tv[st.Val]
+									p.taintedCell[a] = untag(tv[st.Val])
 									inner, changed = true, true
 								}
 							case *ssa.FieldAddr:
@@ -298,7 +303,7 @@ func c05pure(c *core.Ctx, r *core.Report) {
 										n, _ := core.FieldOf(a)
 										full := qualNamed(n) + "." + f.Name()
 										if !resultTypes[qualNamed(n)] || outputFields[full] != "" {
-											p.srcFields[f] = tv[st.Val] + " stored in " + full
+											p.srcFields[f] = untag(tv[st.Val]) + " stored in " + full
 											inner, changed = true, true
 										}
 									}
@@ -340,17 +345,35 @@ func c05pure(c *core.Ctx, r *core.Report) {
 							}
 						}
 						// returns
-						if ret, ok := ins.(*ssa.Return); ok && p.taintedRet[fn] == "" {
-							for _, res := range ret.Results {
-								if d := tv[res]; d != "" {
+						if ret, ok := ins.(*ssa.Return); ok {
+							note := func(d string) {
+								if i, isParam := taggedParam(d); isParam {
+									if p.retParams[fn] == nil {
+										p.retParams[fn] = map[int]bool{}
+									}
+									if !p.retParams[fn][i] {
+										p.retParams[fn][i] = true
+										changed = true
+									}
+									return
+								}
+								if p.taintedRet[fn] == "" {
 									p.taintedRet[fn] = d
 									changed = true
 								}
 							}
-							if d, ok := regions[b]; ok && len(ret.Results) > 0 && p.taintedRet[fn] == "" && controlTaintableResult(fn) {
+							for _, res := range ret.Results {
+								if d := tv[res]; d != "" {
+									note(d)
+								}
+							}
+							if d, ok := regions[b]; ok && len(ret.Results) > 0 && controlTaintableResult(fn) {
 								// which return executes depends on a source
-								p.taintedRet[fn] = d + " (control dependence)"
-								changed = true
+								if _, isParam := taggedParam(d); isParam {
+									note(d)
+								} else {
+									note(d + " (control dependence)")
+								}
 							}
 						}
 					}
@@ -415,18 +438,18 @@ func c05pure(c *core.Ctx, r *core.Report) {
 		for b, why := range regions {
 			for _, ins := range b.Instrs {
 				if d := p.rFieldWrite(ins); d != "" {
-					bad = fmt.Sprintf("writes result-relevant field %s under a branch on %s", d, why)
+					bad = fmt.Sprintf("writes result-relevant field %s under a branch on %s", d, untag(why))
 					badPos = c.Pos(ins.Pos())
 				}
 				for _, callee := range p.g.CalleesAt(ins) {
 					if s := p.summary[callee]; s != "" && c.IsRepoFunc(callee) {
-						bad = fmt.Sprintf("calls %s under a branch on %s; it %s", core.ShortFunc(callee), why, trunc(s, 200))
+						bad = fmt.Sprintf("calls %s under a branch on %s; it %s", core.ShortFunc(callee), untag(why), trunc(s, 200))
 						badPos = c.Pos(ins.Pos())
 					}
 				}
 				if mc, ok := ins.(*ssa.MakeClosure); ok {
 					if s := p.summary[mc.Fn.(*ssa.Function)]; s != "" {
-						bad = fmt.Sprintf("creates closure %s under a branch on %s; it %s", core.ShortFunc(mc.Fn.(*ssa.Function)), why, trunc(s, 200))
+						bad = fmt.Sprintf("creates closure %s under a branch on %s; it %s", core.ShortFunc(mc.Fn.(*ssa.Function)), untag(why), trunc(s, 200))
 						badPos = c.Pos(ins.Pos())
 					}
 				}
@@ -465,7 +488,7 @@ func c05pure(c *core.Ctx, r *core.Report) {
 				}
 				if d := p.rFieldWriteF(ins, false); d != "" {
 					n++
-					r.Fail("R05.pure", fmt.Sprintf("%s|store#%d", c.FuncName(fn), n), c.Pos(ins.Pos()), fmt.Sprintf("a value derived from %s is stored in result-relevant field %s", tv[val], d))
+					r.Fail("R05.pure", fmt.Sprintf("%s|store#%d", c.FuncName(fn), n), c.Pos(ins.Pos()), fmt.Sprintf("a value derived from %s is stored in result-relevant field %s", untag(tv[val]), d))
 				}
 			}
 		}
@@ -536,6 +559,23 @@ func (p *purity) propagate(fn *ssa.Function, ins ssa.Instruction, tv map[ssa.Val
 		for _, callee := range p.g.CalleesAt(ins) {
 			if d := p.taintedRet[callee]; d != "" {
 				return d + " via " + callee.Name() + "()"
+			}
+			// taint passed in through an argument comes back through the result
+			off := 0
+			if x.Call.IsInvoke() {
+				off = 1
+			}
+			for i := range p.retParams[callee] {
+				if i-off >= 0 && i-off < len(x.Call.Args) {
+					if d := tv[x.Call.Args[i-off]]; d != "" {
+						return d + " via " + callee.Name() + "()"
+					}
+				}
+				if off == 1 && i == 0 {
+					if d := tv[x.Call.Value]; d != "" {
+						return d + " via " + callee.Name() + "()"
+					}
+				}
 			}
 		}
 		// library functions: result depends on tainted arguments (strings.Contains(filter, ..), regexp match, ...)
@@ -653,4 +693,33 @@ func controlTaintableResult(fn *ssa.Function) bool {
 		}
 	}
 	return false
+}
+
+// paramTag / taggedParam / untag: taint descriptions that entered a function
+// through its i-th parameter carry an invisible tag.
+func paramTag(i int) string { return "\x01" + strconv.Itoa(i) + "\x01" }
+
+func taggedParam(d string) (int, bool) {
+	if !strings.HasPrefix(d, "\x01") {
+		return 0, false
+	}
+	rest := d[1:]
+	j := strings.Index(rest, "\x01")
+	if j < 0 {
+		return 0, false
+	}
+	i, err := strconv.Atoi(rest[:j])
+	return i, err == nil
+}
+
+func untag(d string) string {
+	for strings.HasPrefix(d, "\x01") {
+		rest := d[1:]
+		j := strings.Index(rest, "\x01")
+		if j < 0 {
+			break
+		}
+		d = rest[j+1:]
+	}
+	return d
 }
